@@ -563,7 +563,7 @@ _NT13 = [1, _PAGE13 - 1, _PAGE13, _PAGE13 + 1, 2 * _PAGE13 - 1, 2 * _PAGE13, 2 *
 @obligation(quick=150, thorough=300,
             what="SQLite store: a persisted tick log of n ticks (n around the page size of stream_ticks: 1, P-1, P, P+1, 2P-1, 2P, 2P+1) read back the "
                  "way a restart reads it (stream_ticks) — and by the real PersistenceDecorator-side reader get_ticks — is the persisted log: "
-                 "every tick once, in order",
+                 "every tick once, in order, with exactly the data that was appended (nested mappings in their key order)",
             bounds={"log length": "7 values around 0, P, 2P (P = _TICK_PAGE_SIZE)"})
 def ob_sqlite_long_log_read_back(sel: int) -> bool:
     """
@@ -578,11 +578,18 @@ def ob_sqlite_long_log_read_back(sel: int) -> bool:
         with _TmpDir() as d:
             store = _sws13.SqliteWorkflowStore(os.path.join(d, "s.db"))
 
+            import json
+
+            def tick(i: int):
+                # a tick carries an event whose payload is a MAPPING (dict-typed / dynamic fields): its key order is data — a re-executed step
+                # that renders or iterates it must see what the first life saw
+                return {"type": "t", "i": i, "event": {"value": {"widgets": i, "anvils": 0, "bolts": [{"z": 1, "a": 2}]}, "qualified_name": "x.Y"}}
+
             async def main():
                 for i in range(n):
-                    await store.append_tick("run1", {"type": "t", "i": i})
-                streamed = [t.tick_data["i"] async for t in store.stream_ticks("run1")]
-                got = [t.tick_data["i"] for t in await store.get_ticks("run1")]
+                    await store.append_tick("run1", tick(i))
+                streamed = [json.dumps(t.tick_data) async for t in store.stream_ticks("run1")]
+                got = [json.dumps(t.tick_data) for t in await store.get_ticks("run1")]
                 return streamed, got
 
             loop = asyncio.new_event_loop()
@@ -590,4 +597,5 @@ def ob_sqlite_long_log_read_back(sel: int) -> bool:
                 streamed, got = loop.run_until_complete(main())
             finally:
                 loop.close()
-        return streamed == list(range(n)) and got == list(range(n))
+            want = [json.dumps(tick(i)) for i in range(n)]       # (json.dumps keeps insertion order: the comparison is order-sensitive)
+        return streamed == want and got == want
